@@ -21,6 +21,7 @@ type Msg struct {
 type StepResult struct {
 	DB         []Msg // frontend messages that reached the database (the trailing Flush barrier removed)
 	Client     []Msg // backend messages that reached the client (the trailing notice barrier removed)
+	DBSent     []Msg // backend messages the database end answered with (barrier excluded)
 	Terminated bool  // the proxy closed the session during this step
 	Note       string
 }
@@ -216,6 +217,9 @@ func (ps *PGSession) StepRaw(raw []byte, msgs []pgproto3.FrontendMessage, respon
 		}
 		for _, a := range answers {
 			ps.Back.Send(a)
+			if c, err := cloneBackend(a); err == nil {
+				res.DBSent = append(res.DBSent, c)
+			}
 		}
 		ps.notice++
 		barrier := fmt.Sprintf("verif-barrier-%d", ps.notice)
